@@ -2,6 +2,7 @@
    string equality, the finite map, the exit code, the baseline comparison, and the
    characterisation of update_baseline_from_results as a sequence of map writes. *)
 From Coq Require Import NArith List Bool Lia.
+From SG Require Paths.Model Paths.Proofs.
 From SG Require Import Check.Results Check.ExitCode Check.BMap Check.Ratchet Check.Baseline.
 Import ListNotations.
 Open Scope N_scope.
@@ -118,48 +119,86 @@ Proof.
 Qed.
 
 (* ------------------------------------------------------------------ path_key is idempotent *)
-Lemma list_ind2 : forall (A : Type) (P : list A -> Prop),
-  P [] -> (forall a, P [a]) -> (forall a b l, P l -> P (a :: b :: l)) -> forall l, P l.
+Module PM := SG.Paths.Model.
+Module PP := SG.Paths.Proofs.
+
+Lemma split_piece_sub : forall p c x, In c (PM.split p) -> In x c -> In x p /\ x <> PM.c_slash.
 Proof.
-  intros A P H0 H1 H2 l.
-  assert (H : P l /\ forall a, P (a :: l)).
-  { induction l as [|x l [IH1 IH2]]; split; auto. }
-  apply H.
+  induction p as [|a p IH]; intros c x HC HX.
+  - cbn in HC. destruct HC as [E|[]]. subst c. contradiction.
+  - cbn [PM.split] in HC. destruct (N.eqb a PM.c_slash) eqn:E.
+    + destruct HC as [E0|HC]; [subst c; contradiction|].
+      destruct (IH c x HC HX) as [H1 H2]. split; [right; assumption | assumption].
+    + destruct (PM.split p) as [|h t] eqn:S.
+      * destruct HC as [E0|[]]. subst c. destruct HX as [E1|[]]. subst x. split; [left; reflexivity|].
+        intro E2. subst a. rewrite N.eqb_refl in E. discriminate.
+      * destruct HC as [E0|HC].
+        -- subst c. destruct HX as [E1|HX].
+           ++ subst x. split; [left; reflexivity|]. intro E2. subst a. rewrite N.eqb_refl in E. discriminate.
+           ++ destruct (IH h x (or_introl eq_refl) HX) as [H1 H2]. split; [right; assumption|assumption].
+        -- destruct (IH c x (or_intror HC) HX) as [H1 H2]. split; [right; assumption|assumption].
 Qed.
 
-Lemma strip_all_In : forall p c, In c (strip_all p) -> In c p.
+Lemma existsb_eqb_false : forall (a : N) l, (forall x, In x l -> x <> a) -> existsb (N.eqb a) l = false.
 Proof.
-  intro p. induction p as [|a|a b l IH] using list_ind2; intros c H; auto.
-  cbn [strip_all] in H. destruct (N.eqb a 46 && N.eqb b 47); auto.
-  right. right. apply IH. assumption.
+  intros a l H. induction l as [|x l IH]; cbn; auto.
+  rewrite IH by (intros y HY; apply H; right; assumption).
+  destruct (N.eqb a x) eqn:E; auto. apply N.eqb_eq in E. exfalso. apply (H x); [left; reflexivity|auto].
 Qed.
 
-Lemma strip_all_idem : forall p, strip_all (strip_all p) = strip_all p.
+Lemma unbackslash_no_bslash : forall p x, In x (PM.unbackslash p) -> x <> PM.c_bslash.
 Proof.
-  intro p. induction p as [|a|a b l IH] using list_ind2; auto.
-  cbn [strip_all]. destruct (N.eqb a 46 && N.eqb b 47) eqn:E; auto.
-  cbn [strip_all]. rewrite E. reflexivity.
+  intros p x H. unfold PM.unbackslash in H. apply in_map_iff in H. destruct H as [c [E _]].
+  destruct (N.eqb c PM.c_bslash) eqn:B; subst x.
+  - discriminate.
+  - intro E. subst c. rewrite N.eqb_refl in B. discriminate.
 Qed.
 
-Lemma norm_char_idem : forall c, norm_char (norm_char c) = norm_char c.
-Proof. intro c. unfold norm_char. destruct (N.eqb c 92) eqn:E; cbn; auto. rewrite E. reflexivity. Qed.
-
-Lemma map_norm_char_fixed : forall q, (forall c, In c q -> norm_char c = c) -> map norm_char q = q.
+(* the components of any string without backslashes are clean *)
+Lemma comps_clean : forall u, (forall x, In x u -> x <> PM.c_bslash) -> PM.clean_list (PM.comps u) = true.
 Proof.
-  induction q as [|c q IH]; intro H; cbn; auto.
-  rewrite H by (left; reflexivity). rewrite IH; auto. intros c' HI. apply H. right. assumption.
+  intros u H. unfold PM.clean_list. apply forallb_forall. intros c HC.
+  unfold PM.comps in HC. apply filter_In in HC. destruct HC as [HC K].
+  unfold PM.clean. rewrite K. cbn [andb].
+  rewrite (existsb_eqb_false PM.c_slash c) by (intros x HX; exact (proj2 (split_piece_sub u c x HC HX))).
+  rewrite (existsb_eqb_false PM.c_bslash c) by (intros x HX; apply H; exact (proj1 (split_piece_sub u c x HC HX))).
+  reflexivity.
 Qed.
+
+Lemma comps_slash_prefix : forall s, PM.comps (PM.c_slash :: s) = PM.comps s.
+Proof. intro s. change (PM.c_slash :: s) with ([] ++ PM.c_slash :: s). rewrite PP.comps_app_slash. reflexivity. Qed.
 
 Lemma norm_key_idem : forall p, norm_key (norm_key p) = norm_key p.
 Proof.
-  intro p. unfold norm_key.
-  set (s := strip_all (map norm_char p)).
-  assert (M : map norm_char s = s).
-  { apply map_norm_char_fixed. intros c HI. subst s. apply strip_all_In in HI.
-    apply in_map_iff in HI. destruct HI as [c0 [E _]]. subst c. apply norm_char_idem. }
-  assert (I : strip_all s = s) by (subst s; apply strip_all_idem).
-  destruct s as [|x t]; [reflexivity|].
-  cbn [dot_if_empty]. rewrite M, I. reflexivity.
+  intro p. unfold norm_key at 2 3.
+  set (u := PM.unbackslash p).
+  assert (CL : PM.clean_list (PM.comps u) = true).
+  { apply comps_clean. intros x HX. subst u. eapply unbackslash_no_bslash; eauto. }
+  set (cs := PM.comps u) in *.
+  assert (NB : existsb (N.eqb PM.c_bslash) (PM.join_slash cs) = false) by (apply PP.no_bslash_join; assumption).
+  assert (UJ : PM.unbackslash (PM.join_slash cs) = PM.join_slash cs) by (apply PP.unbackslash_id; assumption).
+  assert (NA : PM.is_abs (PM.join_slash cs) = false).
+  { rewrite <- UJ. apply PP.join_clean_not_abs. assumption. }
+  assert (CJ : PM.comps (PM.join_slash cs) = cs) by (apply PP.comps_join_clean; assumption).
+  destruct (PM.is_abs u).
+  - (* absolute: "/" ++ join cs, never empty *)
+    cbn [app dot_if_empty]. unfold norm_key.
+    change (PM.unbackslash (47 :: PM.join_slash cs)) with (47 :: PM.unbackslash (PM.join_slash cs)).
+    rewrite UJ. cbn [PM.is_abs]. change (N.eqb 47 PM.c_slash) with true. cbn iota.
+    change (47 :: PM.join_slash cs) with (PM.c_slash :: PM.join_slash cs).
+    rewrite comps_slash_prefix, CJ. reflexivity.
+  - cbn [app]. destruct (PM.join_slash cs) as [|x t] eqn:J.
+    + reflexivity.
+    + cbn [dot_if_empty]. unfold norm_key. rewrite UJ, NA, CJ. cbn [app]. rewrite J. reflexivity.
+Qed.
+
+Lemma norm_key_prefix : forall p, PM.is_abs (PM.unbackslash p) = false ->
+  norm_key (46 :: 47 :: p) = norm_key p /\ norm_key (46 :: 92 :: p) = norm_key p.
+Proof.
+  intros p H. unfold norm_key.
+  change (PM.unbackslash (46 :: 47 :: p)) with ([46] ++ PM.c_slash :: PM.unbackslash p).
+  change (PM.unbackslash (46 :: 92 :: p)) with ([46] ++ PM.c_slash :: PM.unbackslash p).
+  rewrite PP.comps_app_slash. rewrite H. split; reflexivity.
 Qed.
 
 Lemma key_of_stable : forall r, stable_key (key_of r).
